@@ -8,6 +8,7 @@ import YaegiVerif.Proofs.C03Repr
 import YaegiVerif.Proofs.C03Decl
 import YaegiVerif.Proofs.C03Block
 import YaegiVerif.Proofs.C03Const
+import YaegiVerif.Proofs.C03Exact
 import YaegiVerif.Model.ConstClass
 /-
   C03 — property theorems: constant expressions follow Go's exact constant semantics.
@@ -17,8 +18,9 @@ open YaegiVerif YaegiVerif.Const YaegiVerif.Proofs.C03
 
 /-! ### ties -/
 
-/-- tie: the `bitlen` table, the guards of `representableConst` and its final comparison, as extracted
-    from /repo/interp/typecheck.go, are the ones the proofs use -/
+/-- tie: the `bitlen` table, the arms of the inner switch of `representableConst` (guard and, for the signed kinds,
+    the range test with its two comparison operators) and its final comparison, as extracted from
+    /repo/interp/typecheck.go, are the ones the proofs use -/
 theorem reprfacts_tie : Generated.C03.reprFacts = Expected.C03.reprFacts := by decide
 
 /-- tie: the `constOp` map of cfg.go, and for each folding function of op.go the go/constant entry point and token it
@@ -36,10 +38,6 @@ theorem source_tie : Generated.C03.sourceHashes = Expected.C03.sourceHashes := b
 
 /-! ### representability of integer constants (typecheck.go `representableConst`) -/
 
-/-- full statement (false today for the signed kinds narrower than 64 bits, see the witness) -/
-def representable_full_statement : Prop :=
-  ∀ (k : IKind) (v : Int), reprY Expected.C03.reprFacts k v = Spec.reprGo k v
-
 /-- **Unsigned kinds: yaegi's representability test is exactly `0 ≤ v ≤ max`**, for every unsigned kind
     and every integer `v` of any magnitude. -/
 theorem representable_unsigned_correct (k : IKind) (hk : k.signed = false) (v : Int) :
@@ -50,69 +48,68 @@ theorem representable_unsigned_correct (k : IKind) (hk : k.signed = false) (v : 
     | (simp only [IKind.minVal, IKind.maxVal, IKind.signed, IKind.bits, Nat.reducePow, Bool.false_eq_true, if_false]
        omega)
 
-/-- **Signed kinds, outside the gap**: for every kind and every `v` that is not in
-    `(max, 2^bits) ∪ (−2^bits, min)` (within the int64 range) of a signed kind, yaegi's test agrees with `min ≤ v ≤ max`. (The side
-    condition is the decidable predicate `inSignedGap`; for unsigned kinds it is vacuous.) -/
-theorem representable_signed_partial (k : IKind) (v : Int) (h : inSignedGap k v = false) :
+/-- **Signed kinds: yaegi's representability test is exactly `min ≤ v ≤ max`**, for every signed kind (int, int8,
+    int16, int32, int64) and every integer `v` of any magnitude — the `Int64Val` guard followed by the range test
+    `-1<<(s-1) <= v && v <= 1<<(s-1)-1` evaluated with Go's int64 wrap-around, `s` read from the `bitlen` table.
+    (Since the repair of F03; before it the statement failed inside `inSignedGap`, see
+    `representable_bitlen_form_gap`.) -/
+theorem representable_signed_correct (k : IKind) (hk : k.signed = true) (v : Int) :
     reprY Expected.C03.reprFacts k v = Spec.reprGo k v := by
-  have h' : ¬ (inSignedGap k v = true) := by simp [h]
-  rw [inSignedGap_iff] at h'
   rw [Bool.eq_iff_iff, reprY_iff, reprGo_iff]
-  cases k <;>
-    simp only [IKind.minVal, IKind.maxVal, IKind.signed, IKind.bits, Nat.reducePow, Bool.false_eq_true, if_false,
-      if_true, true_and, false_and, not_false_eq_true] at h' ⊢ <;> omega
+  cases k <;> first
+    | (exfalso; revert hk; decide)
+    | (simp only [IKind.minVal, IKind.maxVal, IKind.signed, IKind.bits, Nat.reducePow, if_true]
+       omega)
 
-/-- **Exactly what goes wrong inside the gap** (F03): every value of the gap is accepted by yaegi and
-    rejected by Go — so `inSignedGap` is the precise divergence class, not an over-approximation. -/
-theorem representable_signed_gap (k : IKind) (v : Int) (h : inSignedGap k v = true) :
-    reprY Expected.C03.reprFacts k v = true ∧ Spec.reprGo k v = false := by
-  rw [inSignedGap_iff] at h
-  rw [reprY_iff, ← Bool.not_eq_true, reprGo_iff]
-  cases k <;>
-    simp only [IKind.minVal, IKind.maxVal, IKind.signed, IKind.bits, Nat.reducePow, Bool.false_eq_true, if_false,
-      if_true, true_and, false_and] at h ⊢ <;> omega
+/-- **Representability of integer constants, full strength**: for every integer kind and every integer `v`,
+    `representableConst` answers `min(T) ≤ v ≤ max(T)` — the Go specification's "representable by a value of type T". -/
+theorem representable_correct (k : IKind) (v : Int) :
+    reprY Expected.C03.reprFacts k v = Spec.reprGo k v := by
+  cases hs : k.signed
+  · exact representable_unsigned_correct k hs v
+  · exact representable_signed_correct k hs v
 
-/-- the 64-bit signed kinds have an empty gap: the `Int64Val` guard makes the test exact -/
-theorem representable_word64_correct (k : IKind) (hk : k = .int ∨ k = .int64) (v : Int) :
-    inSignedGap k v = false ∧ reprY Expected.C03.reprFacts k v = Spec.reprGo k v := by
-  have hg : inSignedGap k v = false := by
-    rw [← Bool.not_eq_true, inSignedGap_iff]
-    rcases hk with rfl | rfl <;>
-      simp only [IKind.minVal, IKind.maxVal, IKind.signed, IKind.bits, Nat.reducePow, if_true] <;> omega
-  exact ⟨hg, representable_signed_partial k v hg⟩
-
-/-- F03: `var x int8 = 200` — accepted by yaegi, rejected by Go; likewise `const y int16 = 40000` and the
-    negative side `int8(-200)` -/
-theorem representable_signed_witness :
-    reprY Expected.C03.reprFacts .int8 200 = true ∧ Spec.reprGo .int8 200 = false ∧
-    reprY Expected.C03.reprFacts .int16 40000 = true ∧ Spec.reprGo .int16 40000 = false ∧
-    reprY Expected.C03.reprFacts .int8 (-200) = true ∧ Spec.reprGo .int8 (-200) = false := by decide
-
-theorem representable_full_statement_false : ¬ representable_full_statement := by
-  intro h
-  have := h .int8 200
-  revert this; decide
-
-/-- non-vacuity of the partial theorem: boundary values of every signed width are outside the gap and
-    decided both ways -/
-example : inSignedGap .int8 127 = false ∧ inSignedGap .int8 (-128) = false ∧ inSignedGap .int8 256 = false ∧
-          inSignedGap .int32 (-2147483649) = true ∧ inSignedGap .int16 (2 ^ 200) = false ∧
-          reprY Expected.C03.reprFacts .int8 (-128) = true ∧ reprY Expected.C03.reprFacts .int8 256 = false := by decide
-
-/-- **The repair candidate for F03 is exact for every kind and every integer**: comparing the guarded value
-    with `-(1<<(s-1))` and `1<<(s-1)-1` (`s` from the same `bitlen` table) for signed kinds, keeping the
-    `BitLen` test for unsigned kinds. -/
-theorem representable_fixed_correct (k : IKind) (v : Int) :
-    reprFixed Expected.C03.reprFacts k v = Spec.reprGo k v := by
-  rw [Bool.eq_iff_iff, reprFixed_iff, reprGo_iff]
-  cases k <;>
-    simp only [IKind.minVal, IKind.maxVal, IKind.signed, IKind.bits, Nat.reducePow, Bool.false_eq_true, if_false,
-      if_true] <;> omega
-
-/-- the same statements about the facts regenerated from the current source -/
-theorem representable_generated (k : IKind) (v : Int) (h : inSignedGap k v = false) :
+/-- the same statement about the facts regenerated from the current source -/
+theorem representable_generated (k : IKind) (v : Int) :
     reprY Generated.C03.reprFacts k v = Spec.reprGo k v := by
-  rw [reprfacts_tie]; exact representable_signed_partial k v h
+  rw [reprfacts_tie]; exact representable_correct k v
+
+/-- non-vacuity / boundary behaviour: both ends of every signed width, the 64-bit wrap-around of the bound
+    computation, values far outside the int64 range, and the former F03 inputs -/
+example : reprY Expected.C03.reprFacts .int8 127 = true ∧ reprY Expected.C03.reprFacts .int8 128 = false ∧
+          reprY Expected.C03.reprFacts .int8 (-128) = true ∧ reprY Expected.C03.reprFacts .int8 (-129) = false ∧
+          reprY Expected.C03.reprFacts .int8 200 = false ∧ reprY Expected.C03.reprFacts .int16 40000 = false ∧
+          reprY Expected.C03.reprFacts .int8 (-200) = false ∧
+          reprY Expected.C03.reprFacts .int64 (2 ^ 63 - 1) = true ∧ reprY Expected.C03.reprFacts .int64 (2 ^ 63) = false ∧
+          reprY Expected.C03.reprFacts .int (-(2 ^ 63)) = true ∧ reprY Expected.C03.reprFacts .int (-(2 ^ 63) - 1) = false ∧
+          reprY Expected.C03.reprFacts .int32 (-2147483649) = false ∧ reprY Expected.C03.reprFacts .int16 (2 ^ 200) = false := by
+  decide
+
+/-- **What the repair removed** (F03, fixed): with the signed arm as it was — `Int64Val` guard, then the final
+    `BitLen` test, which ignores the sign — every value of `inSignedGap` (`max < v < 2^bits` or `-2^bits < v < min`)
+    was accepted although Go rejects it, and outside of it the old test was right. This is what the model computes
+    for a source in which the repair is reverted (the extractor then emits `reprFactsBefore`). -/
+theorem representable_bitlen_form_gap (k : IKind) (v : Int) :
+    (inSignedGap k v = true → reprY Expected.C03.reprFactsBefore k v = true ∧ Spec.reprGo k v = false) ∧
+    (inSignedGap k v = false → reprY Expected.C03.reprFactsBefore k v = Spec.reprGo k v) := by
+  constructor
+  · intro h
+    rw [inSignedGap_iff] at h
+    rw [reprYBefore_iff, ← Bool.not_eq_true, reprGo_iff]
+    cases k <;>
+      simp only [IKind.minVal, IKind.maxVal, IKind.signed, IKind.bits, Nat.reducePow, Bool.false_eq_true, if_false,
+        if_true, true_and, false_and] at h ⊢ <;> omega
+  · intro h
+    have h' : ¬ (inSignedGap k v = true) := by simp [h]
+    rw [inSignedGap_iff] at h'
+    rw [Bool.eq_iff_iff, reprYBefore_iff, reprGo_iff]
+    cases k <;>
+      simp only [IKind.minVal, IKind.maxVal, IKind.signed, IKind.bits, Nat.reducePow, Bool.false_eq_true, if_false,
+        if_true, true_and, false_and, not_false_eq_true] at h' ⊢ <;> omega
+
+/-- the former F03 inputs under the reverted form: `var x int8 = 200`, `const y int16 = 40000`, `int8(-200)` -/
+example : reprY Expected.C03.reprFactsBefore .int8 200 = true ∧ reprY Expected.C03.reprFactsBefore .int16 40000 = true ∧
+          reprY Expected.C03.reprFactsBefore .int8 (-200) = true ∧ inSignedGap .int8 200 = true := by decide
 
 /-! ### evaluation of constant expressions: one walk of the interpreter (`var c = e`, operands, first walk) -/
 
@@ -258,6 +255,90 @@ example : blockY Expected.C03.facts Expected.C03.declFacts exBlock =
       [.ok (.int 0, .i .int), .ok (.int 1, .i .int), .ok (.int 4, .i .uint8), .ok (.int 8, .i .uint8), .ok (.int 40, .i .int)] := by
   decide +kernel
 
+/-! ### exactness where `representableConst` is the only check (since the repair of F03) -/
+
+/-- **`T(e)` for an untyped integer constant expression, both directions**: for every expression `e` of the integer
+    fragment that Go accepts with an untyped type, every integer type `T` and every `iota`, one walk of the
+    interpreter over `T(e)` has exactly the outcome of the specification — the converted constant of type `T` when
+    the value is representable in `T`, a compile error when it is not (`int8(200)`, `int8(-200)`, `uint8(-1)`,
+    `int64(1 << 63)` are rejected). `compare … = .same` is the relation of `evalY_full_statement`. Before the repair
+    this failed for the values of `inSignedGap`. (Proofs/C03Exact.lean) -/
+theorem conv_untyped_exact (i : Nat) (e : CExpr) (hshape : intShape e = true) (hq : noRuneQuo i e = true)
+    (gv : Spec.GV) (hgo : Spec.evalGo i e = .ok gv) (hun : gv.ty.untyped = true) (k : IKind) :
+    Class.compare (evalY Expected.C03.facts { iota := i } none (.conv (.i k) e)) (Spec.evalGo i (.conv (.i k) e)) = .same :=
+  Proofs.C03.conv_untyped_exact i e hshape hq gv hgo hun k
+
+/-- non-vacuity: `int8(1 << 200 >> 193)` (128) and `int8(-(1 << 7) - 1)` are in the domain and rejected by both
+    sides, `int8(-(1 << 7))` is accepted by both with value −128 -/
+example :
+    intShape (.bin .shr (.bin .shl (.int 1) (.int 200)) (.int 193)) = true ∧
+    Spec.evalGo 0 (.bin .shr (.bin .shl (.int 1) (.int 200)) (.int 193)) = .ok ⟨.int 128, .u .int⟩ ∧
+    evalY Expected.C03.facts { iota := 0 } none (.conv (.i .int8) (.bin .shr (.bin .shl (.int 1) (.int 200)) (.int 193))) = .reject ∧
+    Spec.evalGo 0 (.conv (.i .int8) (.bin .shr (.bin .shl (.int 1) (.int 200)) (.int 193))) = .reject ∧
+    evalY Expected.C03.facts { iota := 0 } none (.conv (.i .int8) (.bin .sub (.un .neg (.bin .shl (.int 1) (.int 7))) (.int 1))) = .reject ∧
+    (evalY Expected.C03.facts { iota := 0 } none (.conv (.i .int8) (.un .neg (.bin .shl (.int 1) (.int 7))))).bind (fun n => .ok n.rv) =
+      .ok (.r (.i .int8) (.int (-128))) := by decide
+
+/-- **`var c T = e` at package level, both directions**, `T` any integer type, `e` an initialiser on which the
+    declared type pushed down the tree has no effect (`declShape`: literals, `iota`, unary operators and
+    parentheses over them, conversions of any integer-fragment expression) and that Go accepts as an expression:
+    the model of the declaration *equals* the specification — Go's value when the constant is representable in `T`
+    (or already has type `T`), a compile error otherwise (`var x int8 = 200`, `var x int8 = -129`,
+    `var x int16 = int8(1)` are rejected). A binary operator at the top is excluded: it takes the declared type as
+    its own and is never checked (F03-2). -/
+theorem typed_var_decl_exact (k : IKind) (e : CExpr) (hs : declShape e = true) (hq : noRuneQuo 0 e = true)
+    (gv : Spec.GV) (hgo : Spec.evalGo 0 e = .ok gv) :
+    varDeclY Expected.C03.facts (some (.i k)) e = Spec.declGo 0 (some (.i k)) e :=
+  Proofs.C03.typed_var_decl_exact k e hs hq gv hgo
+
+/-- non-vacuity: the former F03 replay `var c0 int8 = 200` and its neighbours -/
+example :
+    varDeclY Expected.C03.facts (some (.i .int8)) (.int 200) = .reject ∧ Spec.declGo 0 (some (.i .int8)) (.int 200) = .reject ∧
+    varDeclY Expected.C03.facts (some (.i .int8)) (.un .neg (.int 129)) = .reject ∧
+    varDeclY Expected.C03.facts (some (.i .int8)) (.un .neg (.par (.int 128))) = .ok (.int (-128), .i .int8) ∧
+    varDeclY Expected.C03.facts (some (.i .int16)) (.conv (.i .int16) (.bin .mul (.int 200) (.int 100))) = .ok (.int 20000, .i .int16) ∧
+    declShape (.conv (.i .int16) (.bin .mul (.int 200) (.int 100))) = true := by decide
+
+/-- **`const c T = e`, both directions**, `T` any integer type, `e` a literal chain (`litChain`: literals, `iota`,
+    unary operators, parentheses), for every `iota` and wherever the spec stands in a block: when Go accepts the
+    declaration all three walks and the use yield Go's value (`SpecOk`, so the spec can take part in
+    `iota_block_correct`); when Go rejects it (`const y int16 = 40000`) the first walk of the interpreter rejects it. -/
+theorem typed_const_decl_exact (i : Nat) (k : IKind) (e : CExpr) (hl : litChain e = true)
+    (gv : Spec.GV) (hgo : Spec.evalGo i e = .ok gv) :
+    (∀ v, Spec.declGo i (some (.i k)) e = .ok v → SpecOk Expected.C03.facts i (some (.i k)) e) ∧
+    (Spec.declGo i (some (.i k)) e = .reject → ∀ first, constGtaY Expected.C03.facts i first (some (.i k)) e = .reject) :=
+  Proofs.C03.typed_const_decl_exact i k e hl gv hgo
+
+/-- **Blocks of integer constants with or without declared types, end to end**: every resolved spec is either an
+    untyped-integer expression without declared type (as in `block_untyped_correct`) or a literal chain with a declared
+    integer type (`const ( a int8 = iota; b; c )`), accepted by Go with `iota` = its index: the interpreter model gives
+    the block exactly the values and types of the specification. -/
+theorem block_int_correct (specs : List Spec)
+    (h : ∀ j r, (Spec.resolveGo none specs)[j]? = some r →
+      (∃ e v, r = some (none, e) ∧ ufrag e = true ∧ noRuneQuo j e = true ∧ Spec.declGo j none e = .ok v) ∨
+      (∃ k e v, r = some (some (.i k), e) ∧ litChain e = true ∧ Spec.declGo j (some (.i k)) e = .ok v)) :
+    ∃ vs, blockY Expected.C03.facts Expected.C03.declFacts specs = .ok vs ∧ Spec.blockGo specs = vs.map Res.ok := by
+  apply iota_block_correct
+  intro j r hr
+  rcases h j r hr with ⟨e, v, hre, hs, hq, hgo⟩ | ⟨k, e, v, hre, hl, hgo⟩
+  · exact ⟨none, e, hre, const_decl_correct j e hs hq v hgo⟩
+  · refine ⟨some (.i k), e, hre, ?_⟩
+    cases hev : Spec.evalGo j e with
+    | ok gv => exact (typed_const_decl_exact j k e hl gv hev).1 v hgo
+    | reject => simp [Spec.declGo, hev, Res.bind] at hgo
+    | crash => simp [Spec.declGo, hev, Res.bind] at hgo
+    | unm w => simp [Spec.declGo, hev, Res.bind] at hgo
+
+/-- non-vacuity: `const ( a int8 = -iota; b; c )` is −0, −1, −2 of type int8 on both sides, and the former F03 input
+    `const y int16 = 40000` is rejected -/
+example :
+    blockY Expected.C03.facts Expected.C03.declFacts [.explicit (some (.i .int8)) (.un .neg .iota), .implicit, .implicit] =
+      .ok [(.int 0, .i .int8), (.int (-1), .i .int8), (.int (-2), .i .int8)] ∧
+    Spec.blockGo [.explicit (some (.i .int8)) (.un .neg .iota), .implicit, .implicit] =
+      [.ok (.int 0, .i .int8), .ok (.int (-1), .i .int8), .ok (.int (-2), .i .int8)] ∧
+    constDeclY Expected.C03.facts (some (.i .int16)) (.int 40000) = .rejectOrCrash ∧
+    Spec.declGo 0 (some (.i .int16)) (.int 40000) = .reject := by decide
+
 /-! ### witnesses: what the side conditions exclude are real differences (each is a listed finding) -/
 
 /-- typed constant arithmetic wraps instead of being rejected: `int8(100) + int8(100)` is −56 -/
@@ -266,10 +347,16 @@ theorem typed_arith_wraps_witness :
         (fun n => .ok n.rv) = .ok (.r (.i .int8) (.int (-56))) ∧
     Spec.evalGo 0 (.bin .add (.conv (.i .int8) (.int 100)) (.conv (.i .int8) (.int 100))) = .reject := by decide
 
-/-- the signed gap inside an expression: `int8(200)` is −56 -/
-theorem conv_signed_gap_witness :
-    (evalY Expected.C03.facts { iota := 0 } none (.conv (.i .int8) (.int 200))).bind (fun n => .ok n.rv) =
-      .ok (.r (.i .int8) (.int (-56))) ∧ Spec.evalGo 0 (.conv (.i .int8) (.int 200)) = .reject := by decide
+/-- the former signed gap inside an expression (F03, fixed): `int8(200)` and `int8(-200)` are rejected, as by Go,
+    and the boundary `int8(-128)` is accepted with Go's value -/
+example :
+    evalY Expected.C03.facts { iota := 0 } none (.conv (.i .int8) (.int 200)) = .reject ∧
+    Spec.evalGo 0 (.conv (.i .int8) (.int 200)) = .reject ∧
+    evalY Expected.C03.facts { iota := 0 } none (.conv (.i .int8) (.un .neg (.int 200))) = .reject ∧
+    Spec.evalGo 0 (.conv (.i .int8) (.un .neg (.int 200))) = .reject ∧
+    (evalY Expected.C03.facts { iota := 0 } none (.conv (.i .int8) (.un .neg (.int 128)))).bind (fun n => .ok n.rv) =
+      .ok (.r (.i .int8) (.int (-128))) ∧
+    Spec.evalGo 0 (.conv (.i .int8) (.un .neg (.int 128))) = .ok ⟨.int (-128), .t (.i .int8)⟩ := by decide
 
 /-- a typed constant division by zero is a Go run-time panic inside the compiler: `int(1) / int(0)` -/
 theorem typed_div_zero_witness :
@@ -298,7 +385,7 @@ theorem untyped_limit_witness :
 
 theorem evalY_full_statement_false : ¬ evalY_full_statement := by
   intro h
-  have := h 0 (.conv (.i .int8) (.int 200)) rfl
+  have := h 0 (.bin .add (.conv (.i .int8) (.int 100)) (.conv (.i .int8) (.int 100))) rfl
   revert this; decide
 
 /-- a typed declaration whose initialiser is an operator expression is not checked: `var c uint8 = 100 - 101` is 255 -/
